@@ -337,6 +337,46 @@ theorem returned_patch_fidelity_of_contract {Op : Type} (applyOps : J → List O
     ∃ r, appliedObject applyOps b resp = some r ∧ LeafEq r m :=
   returned_patch_fidelity applyOps fromDiff nil hs c act b m hb p fns resp (fun _ _ => contract _ _) hserve hm
 
+/-- Which object is "the reviewed object": whenever the review carries an `object` (CREATE, UPDATE,
+    CONNECT) the whole review — handlers' body, filters, patch reference — is about THAT object,
+    whatever `oldObject` holds (on UPDATE: the stored state, in general different). -/
+theorem review_is_about_the_object {Op : Type} (fromDiff : J → J → List Op) (hs : List (Handler × Bool))
+    (c : Cause) (act : Handler → Act) (n : J) (old : Option J) (p : List (String × J)) (fns : List Fn) :
+    serveReview fromDiff hs c act (some n) old p fns = some (serve fromDiff hs c act n p fns) := rfl
+
+/-- a review without `object` (DELETE) is about `oldObject`; without both it is refused before any
+    handler runs (MissingDataError). -/
+theorem review_without_object {Op : Type} (fromDiff : J → J → List Op) (hs : List (Handler × Bool))
+    (c : Cause) (act : Handler → Act) (old : Option J) (p : List (String × J)) (fns : List Fn) :
+    serveReview fromDiff hs c act none old p fns = old.map (fun o => serve fromDiff hs c act o p fns) := by
+  cases old <;> rfl
+
+/-- The fidelity clause for the review as the apiserver sends it: the JSON patch of the response,
+    applied to `request.object` — the object the apiserver applies it to — yields the requested
+    object up to empty mappings, for EVERY `oldObject` (same hypotheses on the diff library as
+    `returned_patch_fidelity`). -/
+theorem review_patch_fidelity {Op : Type} (applyOps : J → List Op → Option J)
+    (fromDiff : J → J → List Op)
+    (nil : ∀ a, applyOps a [] = some a)
+    (hs : List (Handler × Bool)) (c : Cause) (act : Handler → Act)
+    (n m : J) (old : Option J) (hn : n.isObj = true) (p : List (String × J)) (fns : List Fn) (resp : Response Op)
+    (contract : ∀ toBe, mutated n p fns = .ok toBe → applyOps n (fromDiff n toBe) = some toBe)
+    (hserve : serveReview fromDiff hs c act (some n) old p fns = some (.ok resp))
+    (hm : applyFns (mergePatch n (.obj p)) fns = .ok m) :
+    ∃ r, appliedObject applyOps n resp = some r ∧ LeafEq r m := by
+  have h : serve fromDiff hs c act n p fns = .ok resp := by
+    simpa [serveReview, reviewedBody] using hserve
+  exact returned_patch_fidelity applyOps fromDiff nil hs c act n m hn p fns resp contract h hm
+
+/-- non-vacuity: an UPDATE review whose stored object already has the requested value — relative to
+    `oldObject` there would be nothing to patch; the response patches `object`. -/
+example : ∃ resp : Response J,
+    serveReview (fun _ toBe => [toBe]) [] ⟨none, none, some "UPDATE", none⟩ (fun _ => ⟨[], none⟩)
+      (some (.obj [("spec", .obj [("a", .num 2)])])) (some (.obj [("spec", .obj [("a", .num 1)])]))
+      [("spec", .obj [("a", .num 1)])] [] = some (.ok resp) ∧
+    resp.patch = some [.obj [("spec", .obj [("a", .num 1)])]] := by
+  exact ⟨_, rfl, rfl⟩
+
 /-- allowed ⇔ no function with a MATCHING registration raised (selection and response combined) —
     unguarded: also for two DIFFERENT functions under one id (before 2903555 the later outcome
     overwrote the earlier one under the shared id: finding C18-F6, now a regression case in
